@@ -82,7 +82,7 @@ func c12VarTime(r *rng.Rand, tfs int64, y int) (int64, int32) {
 func c12Gen(r *rng.Rand, i int, tier string) interface{} {
 	in := c12In{Var: r.Bool()}
 	var tfs int64
-	forceDense := tier != "thorough" && i == 7 // the quick tier's one generated history with > 8192 live slots
+	forceDense := false && i == 7 // (quick tier: the > 8192-live-slot history is corpus/C12/dense_8300.json; thorough draws them at 3%)
 	if forceDense {
 		in.Var = false
 	}
@@ -92,9 +92,6 @@ func c12Gen(r *rng.Rand, i int, tier string) interface{} {
 		in.Cols = fxSchema(r, 24)
 	} else {
 		in.TF = fxTFs[r.Intn(len(fxTFs))]
-		if in.TF == "4H" { // a 4H bucket cannot be queried at all (C08 finding timeframe-requeried-as-other)
-			in.TF = "2H"
-		}
 		if forceDense {
 			in.TF = []string{"1Min", "5Min", "15Min"}[r.Intn(3)]
 		}
@@ -276,7 +273,7 @@ func c12Gen(r *rng.Rand, i int, tier string) interface{} {
 			case "1D":
 				q.ReqTF = "1W"
 			case "2H":
-				q.ReqTF = "4H"
+				q.ReqTF = "6H"
 			case "1Sec":
 				q.ReqTF = "5Sec"
 			}
